@@ -216,6 +216,30 @@ def judgeDistinct (sc : Scn) (impl : String) : Option String × List String :=
       (if hasDup items then some "an index set was emitted twice by one enumeration" else none, sc.seen)
   | _ => (none, sc.seen)
 
+/-- trailing `all` with a self-referencing filter (`A -> all B where … b.… as b`) on the prefix `A B^n`:
+the repaired code keeps one greedy chain (each B is tested against the last kept B).  The judge checks on the
+agreed output (i) that the reported chain is genuine — consecutive members satisfy the filter — and (ii) compares the
+number of reports for this B with what C03 asks for: one per admissible subset of the B events so far that ends in
+this B.  (ii) fails whenever more than one such subset exists: known finding `C03-trailing-all-selfref-greedy`. -/
+def trailSelfVerdict (sc : Scn) (e : Ev) (o : Out) : Option String :=
+  match kleeneShape sc, sc.evs with
+  | some (a, b, none), eA :: bs =>
+    let isSelf := match b.pred with | some p => selfRef b.alias p | none => false
+    if !(isSelf && e.ty == 1 && stepOk a eA [] && bs.all (·.ty == 1) && sc.cfg.maxRuns ≥ 1 && !sc.cfg.partitioned) then none else
+    let p := b.pred.getD (.cmp 0 .eq 0)
+    let cap0 : Cap := Cap.setOpt [] a.alias eA
+    let allB := bs ++ [e]
+    let n := allB.length
+    let ms := o.emitted.flatten
+    let chains := ms.map fun m => (m.stack.filter fun en => en.alias == b.alias).map (·.ev)
+    if chains.any fun c => !Spec.chainOk p b.alias cap0 c then some "JUDGE C03 a reported trailing closure violates its own filter" else
+    let wanted := ((Spec.subsets 0 n).filter fun s =>
+      s.getLast? == some (n - 1) && Spec.admissible p b.alias cap0 allB s).length
+    if wanted != ms.length then
+      some s!"KNOWN[C03-trailing-all-selfref-greedy] {wanted} admissible combinations end in this event, {ms.length} reported"
+    else none
+  | _, _ => none
+
 def step (sc : Scn) (line : String) : Scn × String :=
   let (op, impl?) := splitCase line
   match words (if impl?.isNone then stripComment op else op) with
@@ -228,11 +252,11 @@ def step (sc : Scn) (line : String) : Scn × String :=
     | some e, some impl =>
       let exp := expected sc e
       let (dup, seen') := judgeDistinct sc impl
-      let (eng', model) : Eng × String :=
-        if sc.dead then (sc.eng, "panic") else
+      let (eng', model, out?) : Eng × String × Option Out :=
+        if sc.dead then (sc.eng, "panic", none) else
         match SaseB.step sc.nfa sc.cfg sc.eng e with
-        | some (s', o) => (s', fmtOut sc.api o)
-        | none => (sc.eng, "panic")
+        | some (s', o) => (s', fmtOut sc.api o, some o)
+        | none => (sc.eng, "panic", none)
       let sc' := { sc with eng := eng', evs := sc.evs ++ [e], seen := seen', dead := sc.dead || model == "panic" }
       let v :=
         if impl == "panic" then "JUDGE C05/C03 processing panicked"
@@ -245,7 +269,11 @@ def step (sc : Scn) (line : String) : Scn × String :=
               else (match dup with | some why => s!"JUDGE C03 {why}" | none => verdict model impl)
           | none => match dup with
               | some why => s!"JUDGE C03 {why}"
-              | none => verdict model impl
+              | none =>
+                if model != impl then verdict model impl
+                else match out?.bind (trailSelfVerdict sc e) with
+                  | some v => v
+                  | none => "ok"
       (sc', v)
     | _, _ => (sc, "BADLINE")
   | [] => (sc, "")
